@@ -60,7 +60,6 @@ def pool_invariant(v, sv):
             z3.And(k.key(o), k.key(o2), k.idl(o, m) > 0, k.idl(o2, m) > 0), o == o2))),
         ('every-machine-in-some-pool', Q([m], lambda m: z3.Implies(k.M.count(m) > 0, z3.Or(
             k.pools(m) == 1, z3.Exists([z3.Int('ow')], z3.And(k.key(z3.Int('ow')), k.idl(z3.Int('ow'), m) > 0)))))),
-        ('reservation-lengths', Q([o], lambda o: z3.And(k.idn(o) >= 0, z3.Implies(k.idn(o) == 0, z3.Select(k.idle.vcnt, o) == z3.K(I, z3.IntVal(0)))))),
         ('total-is-machine-count', k.total.t == z3.ToReal(k.M.n)),
         ('waiting-list-unused', v._tasks['waiting'].n == 0),
     ]
@@ -291,10 +290,104 @@ REG.contract('Cluster.clean_up_ingest', fix={'c': 'default'},
 
 # __init__ establishes the invariant
 REG.contract('Cluster.__init__', params={'env': 'env', 'config': 'obj:Config'},
-             requires=lambda c: _config.well_formed_json(Ctx(c.eng, SVself(c, c.o.config), None)),
+             requires=lambda c: _config.well_formed_json(Ctx(c.eng, SVself(c, c.o.config), None)) + _config.positive_speeds(Ctx(c.eng, SVself(c, c.o.config), None)),
              raises={'KeyError': dict(when=None, unchanged=False)},
              world=lambda eng: {'self': __import__('pyvc.state', fromlist=['ObjV']).ObjV('Cluster', {}, 'Cluster')},
              ensures=lambda c: [('C02-all-machines-available', z3.And(same_list(CV(c.n.self).av, CV(c.n.self).M),
                                                                      CV(c.n.self).ing.n == 0, CV(c.n.self).occ.n == 0,
                                                                      CV(c.n.self).idle.nk == 0))],
              invariants='post', modifies=['*'], props=['C02'])
+
+
+# ================================================================================================ generators
+from pyvc.state import GenV, ProcV   # noqa: E402
+from .task import TS   # noqa: E402
+
+# extra invariant clauses linking the task maps (C02 'fin', C04 at-most-once)
+def task_map_invariant(v, sv):
+    k = CV(v)
+    st = lambda t: z3.Select(sv.heap('Task', 'task_status'), t)
+    return [
+        ('running-list-nodup', Q([('t', I)], lambda t: z3.And(k.run.count(t) >= 0, k.run.count(t) <= 1))),
+        ('running-tasks-not-finished', Q([('t', I)], lambda t: z3.Implies(k.run.count(t) > 0, z3.And(
+            t > 0, z3.Not(z3.And(k.fin.has(t), z3.Select(k.fin.vals, t))))))),
+    ]
+
+
+def cluster_invariant(v, sv):   # noqa: F811  (extends the definition above)
+    return pool_invariant(v, sv) + counter_invariant(v, sv) + task_map_invariant(v, sv)
+
+
+REG.invariants['Cluster'] = cluster_invariant
+
+
+def _machine_run_effect(eng, vals, result):
+    """Machine.run spawns task.do_work(env, machine, predecessor_allocations) and returns the process"""
+    g = GenV('Task.do_work', vals['task'], {'self': vals['task'], 'env': vals['env'], 'machine': vals['self'],
+                                           'predecessor_allocations': vals['predecessor_allocations']})
+    return eng.spawn(g, None)
+
+
+REG.contract('Machine.run', params={'task': 'Task', 'env': 'env', 'predecessor_allocations': 'any'},
+             requires=lambda c: [('C01-task-is-scheduled', c.o.task.task_status.t == TS('SCHEDULED'))],
+             effect=_machine_run_effect, assumed=True,
+             note="ASSUMED, body not verified: run_task/stop_task subtract and re-add task.io (a number for ingest tasks, a dict "
+                  "for workflow tasks: only ingest tasks reach it); net effect on the machine is nil; spawns exactly one do_work")
+
+
+def _atc_accept(c):
+    """the membership test of allocate_task_to_cluster, as the property states it: a workflow task needs a machine that is
+    available or reserved-idle for its own observation; an ingest task needs the machine it was given in the ingest pool"""
+    k = CV(c.o.self)
+    m, ob = c.o.machine.t, c.o.observation.t
+    return z3.If(c.o.ingest.t, k.ing.count(m) > 0, z3.Or(k.av.count(m) > 0, z3.And(k.key(ob), k.idl(ob, m) > 0)))
+
+
+def _atc_req(c):
+    k = CV(c.o.self)
+    t = c.o.task
+    return [('C04-task-not-run-before', z3.And(k.run.count(t) == 0, z3.Not(z3.And(k.fin.has(t), z3.Select(k.fin.vals, t.t))))),
+            ('task-is-an-object', t.t > 0)]
+
+
+def _atc_y(c):
+    v = c.n
+    k = CV(v.self)
+    t, m = v.task, v.machine.t
+    return [('task-is-running', k.run.count(t) == 1),
+            ('C01-machine-held-by-this-task', z3.If(v.ingest.t, k.ing.count(m) > 0, k.occ.count(m) > 0)),
+            ('one-step-wait', v['_ydelay'].t == 1)]
+
+
+def _atc_step(c):
+    o, n = c.o, c.n
+    k0, k1 = CV(o.self), CV(n.self)
+    m, t = o.machine.t, o.task
+    frm, to = c.x['frm'], c.x['to']
+    out = []
+    if frm == -1 and to in (0, 1):
+        sp = [g for g, p, nd in c.x['spawns'] if g.qual == 'Task.do_work']
+        out.append(('C01-exactly-one-execution-started-on-this-machine',
+                    z3.BoolVal(len(sp) == 1) if len(sp) != 1 else z3.And(sp[0].args['machine'].t == m, sp[0].args['self'].t == t.t)))
+        out.append(('C01-workflow-machine-was-free-and-is-now-occupied', z3.Implies(z3.Not(o.ingest.t), z3.And(
+            k0.occ.count(m) == 0, k0.ing.count(m) == 0, k1.occ.count(m) == 1))))
+        out.append(('C01-ingest-machine-stays-in-the-ingest-pool', z3.Implies(o.ingest.t, z3.And(k1.ing.count(m) > 0, same_list(k1.ing, k0.ing)))))
+        out.append(('C04-task-becomes-scheduled', n.task.task_status.t == TS('SCHEDULED')))
+    if to == 'return':
+        ob = o.observation.t
+        out.append(('C04-task-finished', z3.And(n.task.task_status.t == TS('FINISHED'), k1.run.count(t) == 0,
+                                                k1.fin.has(t), z3.Select(k1.fin.vals, t.t))))
+        out.append(('C02-machine-released', z3.If(o.ingest.t, z3.And(k1.ing.count(m) == k0.ing.count(m) - 1, k1.av.count(m) == k0.av.count(m) + 1),
+                                                  z3.And(k1.occ.count(m) == k0.occ.count(m) - 1,
+                                                         z3.If(k0.key(ob), k1.idl(ob, m) == k0.idl(ob, m) + 1, k1.av.count(m) == k0.av.count(m) + 1)))))
+    return out
+
+
+REG.contract('Cluster.allocate_task_to_cluster',
+             params={'task': 'Task', 'machine': 'Machine', 'predecessor_allocations': 'list:Task', 'observation': 'str', 'ingest': 'bool'},
+             fix={'c': 'default'}, locals_types={'ret': 'proc'},
+             requires=_atc_req, yields={0: _atc_y, 1: _atc_y}, step=_atc_step,
+             raises={'RuntimeError': dict(when=lambda c: z3.Not(_atc_accept(c)))},
+             modifies=RES + ['self._tasks.running', 'self._tasks.finished', 'self._usage_data.available', 'self._usage_data.running_tasks',
+                             'self._usage_data.ingest', 'self._usage_data.finished_tasks', 'heap:Task.task_status', 'heap:Task.delay_flag'],
+             props=['C01', 'C02', 'C04', 'C09'])
